@@ -17,6 +17,7 @@ CONSTANTS
   Dist = 3
   KD = 2
   Export = FALSE
+  InterpIds = {}
 INVARIANT IsothermalIdentity
 CONSTRAINT Emit
 CHECK_DEADLOCK FALSE
